@@ -7,6 +7,8 @@ import (
 	"testing"
 
 	ds "github.com/sealdice/dicescript"
+
+	"verif/harness/rt"
 )
 
 func TestProbe(t *testing.T) {
@@ -53,4 +55,27 @@ func TestProbe(t *testing.T) {
 			}
 		}()
 	}
+}
+
+func TestFindSeed(t *testing.T) {
+	src := os.Getenv("C14_FINDSEED")
+	if src == "" {
+		t.Skip()
+	}
+	run := rt.Begin(t, "C14X")
+	run.Enum("expr", "x", func(s *rt.Section) {
+		for i := 0; i < 20000; i++ {
+			seed := fmt.Sprintf("%032x", i*7919+1)
+			n, err := parseDomain(src)
+			if err != nil {
+				t.Fatal(err)
+			}
+			c := &Case{Seed: seed, Vars: enumVars, Prog: &Program{Stmts: []*Node{n}}}
+			if f, _ := checkCase(c, s); f != nil {
+				fmt.Printf("seed %s sig %s\n%s\n", seed, f.Signature, f.Observed)
+				return
+			}
+		}
+		fmt.Println("no failing seed")
+	})
 }
